@@ -351,6 +351,15 @@ def runner_check(ctx, test_exe, driver, rng, thorough, prop, clause):
     # the table the stream / DTLS servers tick (pkg/connections): overlapping stores and deletes from the per-connection
     # goroutines must not lose a connection (real goroutines: evidence, the table is a sync.Map)
     cl = ["conns %d %d 8" % (ctx.seed, 1500 if thorough else 300)]
+    # ... and the datagram server's own sweep over its peer table (real udp.Server, ticks by hand): connections the
+    # application closed are reaped in the same pass in which a silent peer's period ends - that peer must still be closed
+    sl = ["sweep 12 %d" % (20 if thorough else 6)]
+    so = common.run_test_harness(ctx, test_exe, "TestC18Conns", sl, timeout=300, tag="sweep")
+    if so and len(so) == 1 and not so[0].startswith("ok ") and not so[0].startswith("bad round=0 rig-error") and "rig-error" not in so[0]:
+        ctx.violations.append(common.Violation(clause, "%s:udp-server-sweep" % prop, "udp/server housekeeping sweep: %s" % so[0],
+                                               {"input": sl, "observed": so[0], "conns": True}))
+    elif so and "rig-error" in so[0]:
+        ctx.notes.append("rig problem (not a violation): %s" % so[0])
     co = common.run_test_harness(ctx, test_exe, "TestC18Conns", cl, timeout=300, tag="conns")
     if co and len(co) == 1:
         if not co[0].startswith("ok "):
@@ -376,7 +385,7 @@ def replay(ctx, rep):
             print("VIOLATION property=%s replay=(replayed) still reproduces" % ctx.prop)
             return 1
         return 0
-    if lines and lines[0].startswith("conns"):
+    if lines and (lines[0].startswith("conns") or lines[0].startswith("sweep")):
         o = common.run_test_harness(ctx, art["test"], "TestC18Conns", lines, tag="replay")
         print("%s: %s" % (lines[0], o))
         if o and not o[0].startswith("ok "):
